@@ -77,12 +77,22 @@ def logical_lines(text):
     return out
 
 
+R_PLUS_NUMBER = re.compile(r'\s*\+(\d+(?:\.\d*)?(?:e[+-]\d+)?)')
+
+
 def tokenize(text, line_no):
     pos = 0
     toks = []
     while pos < len(text):
         if text[pos:].strip() == '':
             break
+        # a number literal may carry a plus sign (there is no unary plus operator): only where an operand is expected
+        if not toks or toks[-1] == ('op', '(') or toks[-1] == ('op', ',') or (toks[-1][0] == 'op' and toks[-1][1] not in (')',)):
+            mp = R_PLUS_NUMBER.match(text, pos)
+            if mp:
+                pos = mp.end()
+                toks.append(('num', float(mp.group(1))))
+                continue
         m = TOKEN.match(text, pos)
         if not m:
             raise BareSyntaxError('unexpected character in expression', line_no, text[pos:])
